@@ -880,22 +880,23 @@ impl Monitor for StateMonitor {
                 return out;
             }
         };
-        // C19: the same classification must hold for an ontology obtained in other documented ways:
+        // the same observations must hold for an ontology obtained in other documented ways:
         // a clone, a clone_from into a destination that held another ontology, or a minimal build
         // followed by the two public set_default_* calls in either order
-        let ont = if label.starts_with("rndc19") {
-            match rng.below(8) {
+        let ont = if label.starts_with("rnd") {
+            match rng.below(40) {
                 1 => {
                     out.bucket("obtained/clone");
                     ont.clone()
                 }
                 2 => {
                     out.bucket("obtained/clone_from");
-                    let mut dst = if rng.chance(1, 2) {
+                    // the destination held another ontology before (other terms, links, annotations and
+                    // information content in the very slots that are overwritten), or nothing
+                    let mut dst = if rng.chance(1, 3) {
                         Ontology::default()
                     } else {
-                        let mut other = gen_c19_facts(&mut rng, false);
-                        other.recs = Default::default();
+                        let other = gen_c19_facts(&mut rng, false);
                         match drive::via_builder(&other.builder_view(), None, true) {
                             Ok(o) => o,
                             Err(_) => Ontology::default(),
@@ -904,11 +905,21 @@ impl Monitor for StateMonitor {
                     dst.clone_from(&ont);
                     dst
                 }
-                3 | 4 | 5 if sc.path == PathKind::BuilderDefaults => {
+                3..=12 if label.starts_with("rndc19") && sc.path == PathKind::BuilderDefaults => {
                     out.bucket("obtained/minimal_then_set_default_calls");
                     let cats_first = rng.chance(1, 2);
                     match drive::via_builder(&sc.view, None, false) {
                         Ok(mut o) => {
+                            // half of the time the lists were customised before (a user resetting them to the
+                            // defaults): the set_default_* calls REPLACE what is there
+                            if rng.chance(1, 2) {
+                                let all: Vec<u32> = sc.view.terms.iter().map(|t| t.id).collect();
+                                for _ in 0..rng.urange(1, 3) {
+                                    o.modifier_mut().insert(*rng.pick(&all));
+                                    o.categories_mut().insert(*rng.pick(&all));
+                                }
+                                out.bucket("obtained/customised_then_reset_to_defaults");
+                            }
                             let r = guard(std::panic::AssertUnwindSafe(|| {
                                 if cats_first {
                                     o.set_default_categories().and_then(|()| o.set_default_modifier())
